@@ -47,7 +47,7 @@ def _geo_margin(sv: Sys, t):
 def iff_case(draw):
     sysd = draw(matrix_system(m=(2, 5), shape=draw(st.sampled_from(["exact", "under", "under"])), ub_kinds=("finite",), surplus=(1, 3)))
     rows = draw(target_rows(sysd, ["interior", "interior", "facet", "face", "vertex", "near_in", "near_in", "near_out", "near_out",
-                                   "outside", "scaled_out", "below", "random"], nrows=(2, 8)))
+                                   "outside", "scaled_out", "below", "below_lb", "random"], nrows=(2, 8)))
     return dict(system=sysd, rows=rows, entry=draw(st.sampled_from(["estimator", "function"])))
 
 
@@ -92,7 +92,7 @@ def any_case(draw):
         sysd = draw(matrix_system(m=(2, 2), n=(1, 6)))
     else:
         sysd = draw(matrix_system(m=(2, 5), n=(1, 8)))
-    rows = draw(target_rows(sysd, ["interior", "interior", "interior", "random", "scaled_out", "below", "outside"], nrows=(2, 6), margin=(0.01, 0.45)))
+    rows = draw(target_rows(sysd, ["interior", "interior", "interior", "random", "scaled_out", "below", "below_lb", "below_lb", "outside"], nrows=(2, 6), margin=(0.01, 0.45)))
     return dict(system=sysd, rows=rows, entry=draw(st.sampled_from(["estimator", "function"])), cfg=cfg)
 
 
@@ -109,6 +109,8 @@ def body_any(case):
             check(bool(g), "any:interior-image-rejected",
                   f"capture of intensities strictly inside the bounds (margin {r.get('margin')}) reported out of gamut [{'/'.join(sv.labels())}]",
                   observed=dict(b=b.tolist(), x=r.get("x")))
+        if r["kind"] == "below_lb":
+            labs.append("below-lb-target")
         if bool(g):
             d, _ = lp_dist(sv.Ap, sv.basep, sv.lb, sv.ub, b)
             labs.append("accepted")
